@@ -118,109 +118,261 @@ Qed.
 (* ------------------------------------------------------------------ *)
 (* 3. Install and a refused derived name                               *)
 
-Lemma install_core_invalid_fs w root n file s ff ow log :
-  valid_name n = false ->
-  let r := install_core w root n file s ff ow log in
-  r_fs r = w /\ r_err r <> ENone.
+(* every acceptable name a source offers is among its raw names *)
+Lemma parse_raw f n : parse_plugin_name f = Some n -> In n (raw_name f).
 Proof.
-  intros V. unfold install_core. destruct (run_meta w file n) as [nm ran].
-  destruct nm as [|newv|]; try (cbn; split; [reflexivity | discriminate]).
-  rewrite (verdict_invalid _ _ _ _ _ V). destruct ow.
-  - rewrite (finish_invalid _ _ _ _ _ _ V). cbn. split; [reflexivity | discriminate].
-  - cbn. split; [reflexivity | discriminate].
+  unfold parse_plugin_name, raw_name. destruct (cut_prefix bin_prefix f) as [m|]; [|discriminate].
+  destruct (valid_name m); [|discriminate]. intros E. inversion E. now left.
 Qed.
 
-(* the only change parsePluginFromDir makes: the user-executable bit of one
-   file of the source *)
-Definition only_xbit (s : string) (w w' : fs) : Prop :=
-  forall q, fs_lookup q w' = fs_lookup q w
-            \/ (withinb s q = true
-                /\ exists x m, fs_lookup q w = Some (NFile x m)
-                               /\ fs_lookup q w' = Some (NFile true m)).
-
-Lemma only_xbit_refl s w : only_xbit s w w.
-Proof. intros q. now left. Qed.
-
-Lemma parse_dir_fs w s :
-  s <> "/" ->
-  match parse_dir w s with
-  | (None, _) => True
-  | (Some (file, name, w1), _) => only_xbit s w w1
-  end.
+Lemma candidates_raw w s n : In n (candidates w s) -> In n (raw_names w s).
 Proof.
-  intros NS. pose proof (parse_dir_step w s NS) as P. unfold parse_dir in *.
-  destruct (fold_left (scan_step s) (children w s) (Some scan0)) as [st|]; [|exact I].
-  destruct (sc_found st); [apply only_xbit_refl|].
-  destruct (sc_files st) as [|cand [|c2 r]]; try exact I.
-  destruct (fs_lookup cand w) as [[|x m]|] eqn:L; try exact I.
-  destruct P as (_ & Wc & _).
-  intros q. rewrite lookup_set. destruct (String.eqb q cand) eqn:E; [|now left].
-  apply String.eqb_eq in E. subst q. right. split; [exact Wc|]. now exists x, m.
+  unfold candidates, raw_names. destruct (stat w s) as [| |[|x m]]; try contradiction.
+  - intros H. apply in_flat_map in H as ([c nd] & Hin & H). apply in_flat_map.
+    exists (c, nd). split; [exact Hin|]. cbn in *. destruct nd as [|x m]; [contradiction|].
+    destruct (parse_plugin_name c) as [k|] eqn:P; [|contradiction].
+    destruct H as [<- | []]. now apply parse_raw.
+  - destruct (parse_plugin_name (base_name s)) as [k|] eqn:P; [|contradiction].
+    intros [<- | []]. now apply parse_raw.
 Qed.
 
-Lemma install_invalid_exact w root src ow :
-  is_abs root = true -> src <> "/" ->
-  (forall n, In n (candidates w src) -> valid_name n = false) ->
+Lemma raw_invalid_no_candidates w s :
+  (forall n, In n (raw_names w s) -> valid_name n = false) -> candidates w s = [].
+Proof.
+  intros H. destruct (candidates w s) as [|n l] eqn:C; [reflexivity|].
+  assert (Hin : In n (candidates w s)) by (rewrite C; now left).
+  pose proof (candidates_valid _ _ _ Hin) as V.
+  rewrite (H n (candidates_raw _ _ _ Hin)) in V. discriminate.
+Qed.
+
+(* the clause in full, for Install: when every notation-<n> file of the source
+   has a name the validation refuses, Install fails, the source is stat'ed
+   (and read, if a directory) and nothing else happens: no process runs, no
+   mode bit is set, the file system is the one it started from *)
+Lemma install_refused_no_effect w root src ow :
+  (forall n, In n (raw_names w src) -> valid_name n = false) ->
   let r := install w root src ow in
-  r_err r <> ENone
-  /\ Forall (fun e => withinb src (eff_path e) = true) (r_log r)
-  /\ only_xbit src w (r_fs r).
+  r_err r <> ENone /\ r_fs r = w
+  /\ Forall (fun e => e = EStat src \/ e = EReadDir src) (r_log r).
+Proof. intros H. apply install_no_candidate. now apply raw_invalid_no_candidates. Qed.
+
+Lemma install_elsewhere_no_effect w root src ow :
+  is_abs root = true ->
+  (forall n, In n (raw_names w src) -> ~ resolves_to_child root n) ->
+  let r := install w root src ow in
+  r_err r <> ENone /\ r_fs r = w
+  /\ Forall (fun e => e = EStat src \/ e = EReadDir src) (r_log r).
 Proof.
-  intros A NS H r.
-  destruct (install_invalid_names w root src ow A NS H) as (E & L & _).
-  split; [exact E|]. split; [exact L|].
-  unfold r, install. unfold candidates in H.
-  destruct (String.eqb src ""); [apply only_xbit_refl|].
-  destruct (stat w src) as [| |[|x m]]; try apply only_xbit_refl.
-  - pose proof (parse_dir_fs w src NS) as PF. pose proof (parse_dir_step w src NS) as PS.
-    destruct (parse_dir w src) as [[[[file n] w1]|] l]; [|apply only_xbit_refl].
-    destruct PS as (_ & _ & Ic).
-    destruct (install_core_invalid_fs w1 root n file src false ow (EStat src :: l) (H n Ic)) as (F & _).
-    rewrite F. exact PF.
-  - destruct (parse_plugin_name (base_name src)) as [n|]; [|apply only_xbit_refl].
-    destruct x; cbn [negb]; [|apply only_xbit_refl].
-    destruct (install_core_invalid_fs w root n src src true ow [EStat src; EStat src]
-                (H n (or_introl eq_refl))) as (F & _).
-    rewrite F. apply only_xbit_refl.
+  intros A H. apply install_refused_no_effect. intros n Hn.
+  apply (elsewhere_invalid root n A). now apply H.
 Qed.
 
-(* the two witnesses: the source file is executed, and the source file is
-   made executable, before the name ".." is refused *)
+(* Install never gets as far as the manager's own validation with a bad name *)
+Lemma install_core_not_invalid w root n file s ff ow log :
+  is_abs root = true -> valid_name n = true ->
+  r_err (install_core w root n file s ff ow log) <> EInvalid.
+Proof.
+  intros A V. unfold install_core. destruct (run_meta w file n) as [nm ran].
+  destruct nm as [|newv|]; try (cbn; discriminate).
+  pose proof (verdict_valid w root n newv ow None A V) as VV.
+  destruct (install_verdict w root n newv ow) as [v vlog]. destruct VV as (_ & N1 & _).
+  destruct v as [e|]; [cbn; congruence|]. cbn.
+  unfold install_finish.
+  pose proof (uninstall_ok_step w root n None A V) as U.
+  destruct (uninstall w root n) as [[ue w2] ulog]. destruct U as (_ & N2 & _).
+  destruct ue; try (cbn; congruence);
+    destruct (if ff then _ else _) as [[o w3] clog]; cbn; destruct o; discriminate.
+Qed.
+
+Lemma install_not_invalid w root src ow :
+  is_abs root = true -> src <> "/" -> r_err (install w root src ow) <> EInvalid.
+Proof.
+  intros A NS. unfold install.
+  destruct (String.eqb src ""); [cbn; discriminate|].
+  destruct (stat w src) as [| |[|x m]]; try (cbn; discriminate).
+  - pose proof (parse_dir_step w src NS) as P.
+    destruct (parse_dir w src) as [[[[file n] w1]|] l]; [|cbn; discriminate].
+    destruct P as (_ & _ & Ic). apply install_core_not_invalid; [exact A|].
+    eapply cand_names_valid; eauto.
+  - destruct (parse_plugin_name (base_name src)) as [n|] eqn:P; [|cbn; discriminate].
+    destruct x; cbn [negb]; [|cbn; discriminate].
+    apply install_core_not_invalid; [exact A | eapply parse_valid; eauto].
+Qed.
+
+(* every operation, Install included: the invalid-name error means that
+   nothing at all has happened *)
+Lemma invalid_name_no_effect i :
+  wf i = true -> r_err (exec_op i) = EInvalid ->
+  r_log (exec_op i) = [] /\ r_fs (exec_op i) = world i.
+Proof.
+  unfold wf. rewrite andb_true_iff. intros (A & W) E.
+  assert (NAME : forall j name, is_abs (i_root j) = true -> name_op j name ->
+             r_err (exec_op j) = EInvalid -> r_log (exec_op j) = [] /\ r_fs (exec_op j) = world j).
+  { intros j name Aj NO Ej. destruct (valid_name name) eqn:V.
+    - destruct (name_op_step j name Aj NO V) as (_ & NI & _). congruence.
+    - destruct (name_op_invalid j name NO V) as (_ & L & F). auto. }
+  destruct (i_op i) as [name|name|name| |a mb pm tr|s ow|ex es|name] eqn:O.
+  - apply (NAME i name A); [now left | exact E].
+  - apply (NAME i name A); [right; now left | exact E].
+  - apply (NAME i name A); [right; now right | exact E].
+  - unfold exec_op in *. rewrite O in *. cbn. auto.
+  - destruct (verify_x_reduces (world i) (i_root i) a mb pm)
+      as [(X & _) | (s & -> & -> & -> & _ & _ & _)].
+    + unfold exec_op in *. rewrite O in *. rewrite X. cbn. auto.
+    + rewrite (exec_verify_x_as_verify i s tr O) in *.
+      apply (NAME (with_op i (OVerify s)) s A); [right; now right | exact E].
+  - exfalso. rewrite !andb_true_iff, negb_true_iff in W. destruct W as (_ & NS).
+    apply String.eqb_neq in NS. unfold exec_op in E. rewrite O in E.
+    exact (install_not_invalid _ _ _ _ A NS E).
+  - unfold exec_op in *. rewrite O in *. cbn. auto.
+  - unfold exec_op in *. rewrite O in *. cbn. auto.
+Qed.
+
+(* every install source: it offers no acceptable name and nothing happens, or
+   Install works with an acceptable name of the source and stays in the source
+   and in <root>/<name> *)
+Lemma install_total w root src ow :
+  is_abs root = true -> src <> "/" ->
+  let r := install w root src ow in
+  (candidates w src = [] /\ r_err r <> ENone /\ r_fs r = w
+   /\ Forall (fun e => e = EStat src \/ e = EReadDir src) (r_log r))
+  \/
+  (exists name,
+     In name (candidates w src) /\ valid_name name = true /\ resolves_to_child root name
+     /\ r_err r <> EInvalid
+     /\ Forall (fun e => withinb src (eff_path e) = true
+                         \/ withinb (allowed root name) (eff_path e) = true) (r_log r)
+     /\ (forall q, withinb src q = true \/ withinb (allowed root name) q = true
+                   \/ fs_lookup q (r_fs r) = fs_lookup q w
+                   \/ (fs_lookup q w = None /\ fs_lookup q (r_fs r) = Some NDir
+                       /\ In q (prefixes (allowed root name))))).
+Proof.
+  intros A NS r. destruct (candidates w src) as [|c0 cs] eqn:C.
+  - left. split; [reflexivity|]. apply install_no_candidate. exact C.
+  - right. pose proof (install_not_invalid w root src ow A NS) as NI. fold r in NI.
+    destruct (install_contained_explicit w root src ow A NS) as [(E & L & F) | (n & Ic & V & _ & L & F)];
+      fold r in E, L, F || fold r in L, F.
+    + assert (Hc : In c0 (candidates w src)) by (rewrite C; now left).
+      pose proof (candidates_valid _ _ _ Hc) as V. rewrite <- C.
+      exists c0. split; [exact Hc|]. split; [exact V|].
+      split; [apply (characterise _ _ A), valid_name_single, V|]. split; [exact NI|]. split.
+      * eapply Forall_impl; [|exact L]. intros e We. now left.
+      * intros q. destruct (F q) as [Wq | Eq]; auto.
+    + rewrite <- C. exists n. split; [exact Ic|]. split; [exact V|].
+      split; [apply (characterise _ _ A), valid_name_single, V|]. split; [exact NI|]. now split.
+Qed.
+
+(* ---- the code before /repo 30cc14e ---- *)
+(* parsePluginName accepted every non-empty rest; the derived name was examined
+   only by Get / Uninstall, after the source had been made executable and run *)
+Definition parse_plugin_name_v0 (f : string) : option string :=
+  match cut_prefix bin_prefix f with
+  | Some EmptyString => None
+  | Some n => Some n
+  | None => None
+  end.
+
+Definition scan_step_v0 (src : string) (st : option scan) (e : string * node) : option scan :=
+  match st with
+  | None => None
+  | Some st =>
+      match snd e with
+      | NDir => Some st
+      | NFile x _ =>
+          match parse_plugin_name_v0 (fst e) with
+          | None => Some st
+          | Some nm =>
+              let p := child_path src (fst e) in
+              let files := (sc_files st ++ [p])%list in
+              let log := (sc_log st ++ [EStat p])%list in
+              if negb x then
+                Some (mk_scan (sc_found st) (sc_file st) (sc_name st) nm files log)
+              else if sc_found st then None
+              else Some (mk_scan true p nm nm files log)
+          end
+      end
+  end.
+
+Definition parse_dir_v0 (w : fs) (src : string) : option (string * string * fs) * list eff :=
+  match fold_left (scan_step_v0 src) (children w src) (Some scan0) with
+  | None => (None, [EReadDir src])
+  | Some st =>
+      let log := EReadDir src :: sc_log st in
+      if sc_found st then (Some (sc_file st, sc_name st, w), log)
+      else
+        match sc_files st with
+        | [cand] =>
+            match fs_lookup cand w with
+            | Some (NFile _ m) =>
+                (Some (cand, sc_cand st, fs_set cand (NFile true m) w),
+                 (log ++ [EStat cand; EChmod cand])%list)
+            | _ => (None, (log ++ [EStat cand])%list)
+            end
+        | _ => (None, log)
+        end
+  end.
+
+Definition install_v0 (w : fs) (root src : string) (ow : bool) : outcome :=
+  if String.eqb src "" then mk_out EOther MNone w [] []
+  else
+    match stat w src with
+    | SNotExist => mk_out ENotExist MNone w [EStat src] []
+    | SOtherErr => mk_out EOther MNone w [EStat src] []
+    | SOk NDir =>
+        match parse_dir_v0 w src with
+        | (None, l) => mk_out EOther MNone w (EStat src :: l) []
+        | (Some (file, name, w1), l) =>
+            install_core w1 root name file src false ow (EStat src :: l)
+        end
+    | SOk (NFile x _) =>
+        match parse_plugin_name_v0 (base_name src) with
+        | None => mk_out EOther MNone w [EStat src] []
+        | Some name =>
+            if negb x then mk_out EOther MNone w [EStat src; EStat src] []
+            else install_core w root name src src true ow [EStat src; EStat src]
+        end
+    end.
+
+Definition witness_fs : fs :=
+  [("/s", NDir); ("/s/notation-..", NFile true (Some ("..", 1%N))); ("/p", NDir); ("/p/r", NDir)].
 Definition witness_fs_noexec : fs :=
   [("/s", NDir); ("/s/notation-..", NFile false (Some ("..", 1%N))); ("/p", NDir); ("/p/r", NDir)].
 
-Lemma install_exec_refuted :
+(* before the fix the source file was executed ... *)
+Lemma install_v0_exec_refuted :
   exists w root src ow,
     is_abs root = true /\ src <> "/"
-    /\ (forall n, In n (candidates w src) -> valid_name n = false)
-    /\ candidates w src <> []
-    /\ let r := install w root src ow in
-       r_err r = EInvalid /\ exists p, In (EExec p true) (r_log r).
+    /\ raw_names w src = [".."] /\ valid_name ".." = false
+    /\ let r := install_v0 w root src ow in
+       r_err r = EInvalid /\ In (EExec src true) (r_log r).
 Proof.
-  exists witness_fs, "/p/r", "/s/notation-..", true.
-  split; [reflexivity|]. split; [discriminate|]. split; [|split].
-  - vm_compute. intros n [<- | []]. reflexivity.
-  - vm_compute. discriminate.
-  - vm_compute. split; [reflexivity|]. exists "/s/notation-..". auto.
+  exists witness_fs, "/p/r", "/s/notation-..", true. vm_compute.
+  repeat split; auto 10; discriminate.
 Qed.
 
-Lemma install_chmod_refuted :
+(* ... and the single non-executable candidate of a directory was made executable *)
+Lemma install_v0_chmod_refuted :
   exists w root src ow,
     is_abs root = true /\ src <> "/"
-    /\ (forall n, In n (candidates w src) -> valid_name n = false)
-    /\ candidates w src <> []
-    /\ let r := install w root src ow in
+    /\ raw_names w src = [".."] /\ valid_name ".." = false
+    /\ let r := install_v0 w root src ow in
        r_err r = EInvalid
        /\ fs_lookup "/s/notation-.." w = Some (NFile false (Some ("..", 1%N)))
        /\ fs_lookup "/s/notation-.." (r_fs r) = Some (NFile true (Some ("..", 1%N)))
-       /\ In (EChmod "/s/notation-..") (r_log r).
+       /\ In (EChmod "/s/notation-..") (r_log r)
+       /\ In (EExec "/s/notation-.." true) (r_log r).
 Proof.
-  exists witness_fs_noexec, "/p/r", "/s", false.
-  split; [reflexivity|]. split; [discriminate|]. split; [|split].
-  - vm_compute. intros n [<- | []]. reflexivity.
-  - vm_compute. discriminate.
-  - vm_compute. repeat split; auto 10.
+  exists witness_fs_noexec, "/p/r", "/s", false. vm_compute.
+  repeat split; auto 12; discriminate.
 Qed.
+
+(* the same two sources on the code as it is now *)
+Lemma install_witnesses_now :
+  install witness_fs "/p/r" "/s/notation-.." true
+    = mk_out EOther MNone witness_fs [EStat "/s/notation-.."] []
+  /\ install witness_fs_noexec "/p/r" "/s" false
+    = mk_out EOther MNone witness_fs_noexec [EStat "/s"; EReadDir "/s"] [].
+Proof. vm_compute. split; reflexivity. Qed.
 
 (* ------------------------------------------------------------------ *)
 (* 4. histories: any sequence of operations on one plugin root         *)
